@@ -159,15 +159,16 @@ class FilesystemIsolation(ContextDecorator):
 
             res = original_func(*args, **kwargs)
 
-            try:
-                self._record_created(*to_record)
-            except Exception:  # noqa: BLE001
-                _LOGGER.warning("Failed to update bookkeeping for %s", original_func)
-
+            # forget first: a path renamed or moved onto itself must stay recorded
             try:
                 self._forget(forget_path)
             except Exception:  # noqa: BLE001
                 _LOGGER.warning("Failed to forget path: %s", forget_path)
+
+            try:
+                self._record_created(*to_record)
+            except Exception:  # noqa: BLE001
+                _LOGGER.warning("Failed to update bookkeeping for %s", original_func)
 
             return res
 
